@@ -882,6 +882,12 @@ func (ex *Exec) selectStmt(st *State, s *ast.SelectStmt, label string) []flow {
 }
 
 func (ex *Exec) returnStmt(st *State, s *ast.ReturnStmt) []flow {
+	// vacuity guard: every return statement of the function under contract must
+	// be reachable on at least one path (a contradictory invariant or contract
+	// silently kills the paths behind it)
+	if n, ok := ex.returnOrds[s]; ok && len(st.frames) == 1 && ex.FSpec != nil && !ex.FSpec.DeadReturn[n] {
+		ex.reachProbe(st, fmt.Sprintf("return#%d", n), s.Pos())
+	}
 	fr := st.frame()
 	var rets []*Val
 	if len(s.Results) == 0 {
@@ -930,6 +936,18 @@ func (ex *Exec) loopPathOf(n ast.Stmt) string {
 
 func (ex *Exec) indexLoops(body *ast.BlockStmt) {
 	ex.loopPaths = map[ast.Stmt]string{}
+	ex.returnOrds = map[*ast.ReturnStmt]int{}
+	nret := 0
+	ast.Inspect(body, func(x ast.Node) bool {
+		switch r := x.(type) {
+		case *ast.FuncLit:
+			return false
+		case *ast.ReturnStmt:
+			nret++
+			ex.returnOrds[r] = nret
+		}
+		return true
+	})
 	var walk func(n ast.Node, prefix string, counter *int)
 	walk = func(n ast.Node, prefix string, counter *int) {
 		ast.Inspect(n, func(x ast.Node) bool {
@@ -1376,7 +1394,9 @@ func (ex *Exec) havocLoop(st *State, ms *modSet) {
 				ex.havocHeap(st, k)
 			}
 		}
-		// ghost locals may be changed by hooks
+	}
+	{
+		// ghost locals may be changed by hooks (also in bodies that touch no heap)
 		var gn []string
 		for k := range st.ghost {
 			gn = append(gn, k)
@@ -1385,10 +1405,17 @@ func (ex *Exec) havocLoop(st *State, ms *modSet) {
 		mayWrite := ex.ghostsWrittenBy(ms)
 		for _, k := range gn {
 			g := st.ghost[k]
-			if ex.ghostConst[k] || !ms.ghosts {
+			if ex.ghostConst[k] {
 				continue
 			}
-			if mayWrite != nil && !mayWrite[k] {
+			if mayWrite == nil {
+				// extent unknown: only bodies with calls/sends/receives run monitors
+				if !ms.ghosts {
+					continue
+				}
+			} else if !mayWrite[k] {
+				// (a monitor anchored on a plain assignment in the body writes
+				// ghosts too, even when the body has no call at all)
 				continue
 			}
 			st.ghost[k] = &Val{T: g.T, Term: ex.fresh("ghost."+k, g.Term.S)}
